@@ -1,7 +1,9 @@
-(* C02 -- non-vacuity. *)
+(* C02 -- non-vacuity: the hypotheses of every theorem of Props.v are met by a concrete,
+   non-trivial input (a degree-2 open knot vector with a double interior knot and unequal spans),
+   and the objects the theorems talk about take non-trivial values there. *)
 From Coq Require Import QArith Qcanon ZArith List Arith Lia.
 From Verif.lib Require Import Bsp.
-From Verif.C02 Require Import Proofs.
+From Verif.C02 Require Import Proofs Proofs_ref Proofs_ndu Proofs_single.
 Import ListNotations.
 Open Scope Qc_scope.
 
@@ -15,4 +17,69 @@ Example ex_findspan_knot : findspan ex_kv 2 (q 2 4) = 5%nat.   (* on a double kn
 Proof. vm_compute. reflexivity. Qed.
 
 Example ex_findspan_end : findspan ex_kv 2 (q 4 4) = 5%nat.    (* right end: last non-empty span *)
+Proof. vm_compute. reflexivity. Qed.
+
+(* hypotheses of findspan_spec, N_local, N_partition_of_unity, dN_sum_zero, active_values_eq_spec,
+   ndu_divisors_pos, colloc_row_values: kv_ok and u in the closed domain *)
+Example ex_kv_ok : kv_ok ex_kv 2.
+Proof. apply open_kv_ok_l. exact ex_open. Qed.
+
+Example ex_sorted : sorted ex_kv.
+Proof. exact (ok_sorted _ _ ex_kv_ok). Qed.
+
+Example ex_domain : kn ex_kv 0 <= q 3 8 /\ q 3 8 <= kn ex_kv (length ex_kv - 1).
+Proof. split; apply qleb_iff; vm_compute; reflexivity. Qed.
+
+Example ex_domain_knot : kn ex_kv 0 <= q 2 4 /\ q 2 4 <= kn ex_kv (length ex_kv - 1).
+Proof. split; apply qleb_iff; vm_compute; reflexivity. Qed.
+
+Example ex_domain_end : kn ex_kv 0 <= q 4 4 /\ q 4 4 <= kn ex_kv (length ex_kv - 1).
+Proof. split; apply qleb_iff; vm_compute; reflexivity. Qed.
+
+(* hypothesis of findspan_unique (u strictly below the right end, t a span containing u) *)
+Example ex_unique_hyp : q 3 8 < kn ex_kv (length ex_kv - 1) /\ (S 3 < length ex_kv)%nat /\
+  kn ex_kv 3 <= q 3 8 /\ q 3 8 < kn ex_kv 4.
+Proof.
+  split; [apply qltb_iff; vm_compute; reflexivity|]. split; [vm_compute; lia|].
+  split; [apply qleb_iff|apply qltb_iff]; vm_compute; reflexivity.
+Qed.
+
+(* index hypotheses: every basis function index i < numdofs = 6 satisfies i + p + 1 < length *)
+Example ex_index : (numdofs ex_kv 2 = 6)%nat /\ (5 + 2 + 1 < length ex_kv)%nat.
+Proof. vm_compute. split; [reflexivity|lia]. Qed.
+
+(* N_support_knots / N_local: a function that is non-zero, one that is outside the active range *)
+Example ex_nonzero : Nref ex_kv 2 2 (q 3 8) = q 1 4 /\ Nref ex_kv 2 2 (q 3 8) <> 0.
+Proof. split; [vm_compute; reflexivity|]. intro H. apply (f_equal this) in H. vm_compute in H. discriminate. Qed.
+
+Example ex_outside : ~ (findspan ex_kv 2 (q 3 8) - 2 <= 5 <= findspan ex_kv 2 (q 3 8))%nat.
+Proof. vm_compute. lia. Qed.
+
+(* the active values (model of active_ev) at an interior point, on the double knot and at the right end *)
+Example ex_active : active_ev ex_kv 2 (q 3 8) = [q 1 8; q 5 8; q 1 4].
+Proof. vm_compute. reflexivity. Qed.
+Example ex_active_knot : active_ev ex_kv 2 (q 2 4) = [q 1 1; q 0 1; q 0 1].
+Proof. vm_compute. reflexivity. Qed.
+Example ex_active_end : active_ev ex_kv 2 (q 4 4) = [q 0 1; q 0 1; q 1 1].
+Proof. vm_compute. reflexivity. Qed.
+
+(* dN_sum_zero / dN_high_zero: k = 1 with non-zero summands; k = 3 > p = 2 *)
+Example ex_dN : map (fun i => dNref ex_kv 1 2 i (q 3 8)) [1;2;3]%nat = [q (-2) 1; q 0 1; q 2 1].
+Proof. vm_compute. reflexivity. Qed.
+Example ex_high : (2 < 3)%nat.
+Proof. lia. Qed.
+
+(* ndu_divisors_pos: r < j <= p *)
+Example ex_div : (0 < 1)%nat /\ (1 <= 2)%nat /\ get2 (ndu_table ex_kv 2 (findspan ex_kv 2 (q 3 8)) (q 3 8)) 1 0 = q 1 4.
+Proof. split; [lia|]. split; [lia|]. vm_compute. reflexivity. Qed.
+
+(* single_ev_eq_spec: open_kv and the index bound; a non-trivial value, both special cases *)
+Example ex_single : single_ev ex_kv 2 2 (q 3 8) = q 1 4 /\ single_ev ex_kv 2 0 (q 0 4) = 1 /\
+  single_ev ex_kv 2 5 (q 4 4) = 1 /\ single_ev ex_kv 2 4 (q 4 4) = 0.
+Proof. vm_compute. repeat split; reflexivity. Qed.
+
+(* colloc_row_spec / colloc_row_values: a full row *)
+Example ex_colloc : colloc_row ex_kv 2 0 (q 3 8) = [q 0 1; q 1 8; q 5 8; q 1 4; q 0 1; q 0 1].
+Proof. vm_compute. reflexivity. Qed.
+Example ex_colloc_d1 : colloc_row ex_kv 2 1 (q 3 8) = [q 0 1; q (-2) 1; q 0 1; q 2 1; q 0 1; q 0 1].
 Proof. vm_compute. reflexivity. Qed.
